@@ -28,6 +28,12 @@ def check(toks, resp, mode, build):
     op = toks[0]
     if op == "fmtfail":
         return C.check_fmtfail(toks, resp, mode)
+    if op == "fmtpanic":
+        return C.check_fmtpanic(toks, resp, mode)
+    if op == "serdefail":
+        return C.check_serdefail(toks, resp)
+    if op == "debugf":
+        return C.check_debugf(toks, resp)
     if op == "serde_de":
         # JSON string -> Decimal goes through the same parser: accept exactly what from_str accepts
         js = E.unhex(toks[1])
@@ -126,6 +132,11 @@ def gen(rng, tier, shard, batch):
             # a write into a sink that fails part-way; the following requests must be unaffected
             c2, s2 = G.dec(rng)
             reqs.append("fmtfail %d - %s" % (rng.randrange(0, 45), G.fD(c2, s2)))
+        if rng.random() < 0.02:
+            c2, s2 = G.dec(rng)
+            reqs.append(rng.choice(("fmtpanic %d - %s", "serdefail %d %s")) % (rng.randrange(0, 45), G.fD(c2, s2)))
+        if rng.random() < 0.05:
+            reqs.append("debugf %s %s" % (rng.choice(C.DEBUGF_KINDS), G.fD(a, p)))
     return reqs
 
 
